@@ -57,11 +57,14 @@ func topoHashes() []string {
 		hs = append(hs, detection.GenerateTopologyHash(t))
 	}
 	hs = append(hs, "00000000deadbeef00000000deadbeef")
+	// a hash that extends another pool hash: index ranges must end at the separator
+	hs = append(hs, "00000000deadbeef00000000deadbeef77")
 	return hs
 }
 
 func fuzzyHashes() []string {
-	return []string{"", topology.GenerateFuzzyHash(poolTopos[0]), topology.GenerateFuzzyHash(poolTopos[2]), topology.GenerateFuzzyHash(poolTopos[3]), "B9L9BR9P9R9"}
+	return []string{"", topology.GenerateFuzzyHash(poolTopos[0]), topology.GenerateFuzzyHash(poolTopos[2]), topology.GenerateFuzzyHash(poolTopos[3]), "B9L9BR9P9R9",
+		topology.GenerateFuzzyHash(poolTopos[0]) + "2"}
 }
 
 var poolEntropy = []float64{4.0, 0, 3.9999, 4.00004, 4.5, 8.0, 4.3, 5.0}
